@@ -247,7 +247,7 @@ class CIDRPostInit(Contract):
     Sigma type error carrying the source"""
     id = "C18.SigmaCIDRExpression.__post_init__"
     target = "sigma.types:SigmaCIDRExpression.__post_init__"
-    props = ("C18",)
+    props = ("C18", "C03")
     cases = ("valid", "invalid")
     assumed = ["ipaddress.ip_network is external (trusted): its verdict on the text is symbolic; IPv4Network / IPv6Network are the one-family parsers, distinct from it"]
 
@@ -300,7 +300,7 @@ class CIDRPostInit(Contract):
         return obj is inp["self"] and name == "network"
 
     def candidates(self):
-        return ({"cidr": t} for t in ("64:ff9b::10.0.0.0/104", "::ffff:10.0.0.0/104", "10.0.0.0/255.0.0.0", "10.0.0.0/8", "2001:db8::/32", "1.2.3.4", "::1", "10.0.0.1/8", "x", "1.2.3/8", "::/129"))
+        return ({"cidr": t} for t in ("64:ff9b::10.0.0.0/104", "::ffff:10.0.0.0/104", "10.0.0.0/255.0.0.0", "10.0.0.0/8", "2001:db8::/32", "1.2.3.4", "::1", "10.0.0.1/8", "x", "1.2.3/8", "::/129", "2001:0DB8::/32", "2001:db8:0:0::/64"))
 
     def replay(self, values):
         if "cidr" not in values:
@@ -314,7 +314,10 @@ class CIDRPostInit(Contract):
         except ValueError:
             want = None
         try:
-            got = SigmaCIDRExpression(t).network
+            e = SigmaCIDRExpression(t)
+            got = e.network
+            if e.cidr != t:
+                return f"SigmaCIDRExpression({t!r}): the expression no longer carries the written text (cidr = {e.cidr!r}); the cidr modifier keeps the content of the value"
         except SigmaTypeError:
             got = None
         return None if got == want else f"SigmaCIDRExpression({t!r}): network {got}, the standard library gives {want}"
